@@ -15,7 +15,8 @@ import sys
 
 ID = "C01"
 RULES = ["V-ROOT", "V-CHILD", "V-FIRST", "V-SECOND", "V-IOROW", "V-PORTS", "V-KIND", "V-CONNECT",
-         "V-DAG", "V-EXT", "V-DOM", "V-CFEDGE", "V-CONST", "V-CALL", "V-VARS", "V-EXTOP"]
+         "V-DAG", "V-EXT", "V-DOM", "V-CFEDGE", "V-CONST", "V-CALL", "V-VARS", "V-EXTOP",
+         "V-INTERIOR", "V-NOREL", "V-PARENT", "V-OP", "V-EDGE-NODE"]
 FEATS = ["ext-edge", "dom-edge", "static-ext-edge", "explicit-order-edge", "partial-multi-output",
          "conditional", "cond-3+cases", "cond-linear", "tail-loop", "tail-loop-rest", "cfg-diamond",
          "cfg-loop", "cfg-early", "cfg-asymmetric-branch", "poly-call", "poly-call-arity-change",
@@ -300,6 +301,56 @@ def _mutations(doc):
             d["nodes"][i]["signature"]["output"] = []
             out.append(("V-EXTOP", d))
             break
+    # an Input / Output that is not in the first two positions of a dataflow container
+    for i, n in enumerate(nodes):
+        if n["op"] == "Input" and nodes[n["parent"]]["op"] in ("DFG", "FuncDefn", "Case", "TailLoop"):
+            d = clone()
+            d["nodes"].append({"parent": n["parent"], "op": "Input", "types": []})
+            out.append(("V-INTERIOR", d))
+            break
+    # an edge between two nodes that are unrelated in the hierarchy: from a region nested at least two levels
+    # inside one module-level function into the body of another module-level function
+    def chain(i):
+        c = []
+        while nodes[i]["parent"] != i:
+            i = nodes[i]["parent"]
+            c.append(i)
+        return c
+
+    done = False
+    for i, n in enumerate(nodes):
+        if done or n["op"] != "Input" or not n["types"]:
+            continue
+        c = chain(i)
+        if len(c) < 4 or nodes[c[-1]]["op"] != "Module" or nodes[c[-2]]["op"] != "FuncDefn":
+            continue
+        for j, m in enumerate(nodes):
+            if m["op"] == "Output" and nodes[m["parent"]]["op"] == "FuncDefn" and m["parent"] != c[-2] \
+                    and nodes[m["parent"]]["parent"] == c[-1] and m["types"]:
+                d = clone()
+                d["edges"].append([[i, 0], [j, 0]])
+                out.append(("V-NOREL", d))
+                done = True
+                break
+    # hierarchy: a node that is its own parent / a parent index out of range
+    if len(nodes) > 2:
+        d = clone()
+        d["nodes"][len(nodes) - 1]["parent"] = len(nodes) - 1
+        out.append(("V-PARENT", d))
+        d = clone()
+        d["nodes"][len(nodes) - 1]["parent"] = len(nodes) + 5
+        out.append(("V-PARENT", d))
+    # an operation whose attributes cannot be read / an edge naming a node that does not exist
+    for i, n in enumerate(nodes):
+        if n["op"] == "Input":
+            d = clone()
+            del d["nodes"][i]["types"]
+            out.append(("V-OP", d))
+            break
+    if edges:
+        d = clone()
+        d["edges"].append([[len(nodes) + 3, 0], [0, 0]])
+        out.append(("V-EDGE-NODE", d))
     return out
 
 
